@@ -467,3 +467,19 @@ pub fn fault(point: &str) {
         }
     }
 }
+
+/// Event log for the correspondence checks: when `LAZE_VERIF_EVENTS` names a file, one
+/// tab-separated line per event is appended to it, so that the checks do not depend on the
+/// wording of laze's messages.
+pub fn event(kind: &str, fields: &[&str]) {
+    if let Ok(path) = std::env::var("LAZE_VERIF_EVENTS") {
+        use std::io::Write;
+        if let Ok(mut f) = std::fs::OpenOptions::new()
+            .create(true)
+            .append(true)
+            .open(path)
+        {
+            let _ = f.write_all(format!("{}\t{}\n", kind, fields.join("\t")).as_bytes());
+        }
+    }
+}
